@@ -1274,6 +1274,7 @@ pub fn run(driver: &Driver, seed: u64, thorough: bool, replay: Option<&serde_jso
     rep.streams.push(f32_stream(driver, seed, 700 * k));
     rep.streams.push(rt_illtyped(driver, &schemas, seed, 12 * k));
     rep.streams.push(hw::hw_stream(driver, &schemas, seed, 120 * k));
+    rep.streams.push(value::vw_stream(driver, &schemas, seed, 24 * k));
     let (l1, l2) = oracle_laws(&schemas, seed, 60 * k, None);
     rep.oracles.push(l1);
     rep.oracles.push(l2);
